@@ -30,7 +30,7 @@ class Instance:
         if segs[0] == "peginator_codegen":
             return "bootstrap"
         if segs[0] == "verif_corpus":
-            return "corpus:" + "::".join(segs[1:-1])
+            return "corpus:" + "::".join(segs[2:-1] if segs[1] == "gen" else segs[1:-1])
         return segs[0] + ":" + "::".join(segs[1:-1])
 
     def owns_impl(self, path):
@@ -68,6 +68,10 @@ class Ctx:
         self.corpus = self.F.crate("verif_corpus")
         self.runtime_nodefault = self.F.crate("peginator", nodefault=True)
         self._instances = None
+        ce = os.path.join(self.dir, "CORPUS_ERROR")
+        self.corpus_error = open(ce).read() if os.path.exists(ce) else None
+        rj = os.path.join(self.dir, "corpus_gen", "REJECTED.txt")
+        self.corpus_rejected = [l.split("|", 2) for l in open(rj).read().splitlines() if l.strip()] if os.path.exists(rj) else []
 
     def body(self, crate, path):
         key = (crate.file, path)
@@ -102,6 +106,50 @@ class Ctx:
                     out.append(Instance(c, p))
             self._instances = out
         return self._instances
+
+    def grammar_of(self, inst):
+        """The grammar text an instance was generated from, read with the independent ebnf reader."""
+        from . import ebnf
+        cache = self.__dict__.setdefault("_grammars", {})
+        if inst.name in cache:
+            return cache[inst.name]
+        g = None
+        try:
+            if inst.name.startswith("test:"):
+                d = inst.name[5:]
+                for ext in ("grammar.ebnf", "grammar.not_ebnf"):
+                    f = self.repo_file(os.path.join("test", "src", d, ext))
+                    if os.path.exists(f):
+                        g = ebnf.parse_file(f)
+                        g.path = f
+                        break
+            elif inst.name == "bootstrap":
+                f = self.repo_file("grammar.ebnf")
+                g = ebnf.parse_file(f)
+                g.path = f
+            elif inst.name.startswith("corpus:"):
+                mod = inst.name[7:]
+                lst = os.path.join(self.dir, "corpus_grammars", "corpus.txt")
+                for line in open(lst):
+                    p = line.strip().split("|")
+                    if p[0] == mod:
+                        f = os.path.join(self.dir, "corpus_grammars", p[1])
+                        g = ebnf.parse_file(f)
+                        g.path = f
+                        g.settings = {"derives": [x for x in p[2].split(",") if x], "user_context": p[3]}
+            elif inst.crate.name == "simple":
+                import re as _re
+                src = self.read_repo("macro/tests/simple.rs")
+                m = _re.search(r'peginate!\(\s*"((?:[^"\\\\]|\\\\.)*)"', src)
+                if m:
+                    text = bytes(m.group(1), "utf-8").decode("unicode_escape")
+                    g = ebnf.parse(text)
+                    g.path = "macro/tests/simple.rs"
+        except Exception as e:   # unreadable grammar: the oracle is unavailable for this instance
+            g = None
+            cache[inst.name + "!err"] = str(e)
+        cache[inst.name] = g
+        return g
 
     def repo_file(self, rel):
         return os.path.join(facts.REPO, rel)
